@@ -48,6 +48,16 @@ CHECKS["C12"] = dict(
    technique="TLA+ spec SubCatchUp.tla checked exhaustively by TLC; its as-found counter-example is forced on the real code with pause points; free-running attaches over the real HTTP API and client library judged by the property",
    text="TLC explores every interleaving of the matcher's emit/commit (events are sent before the commit) with an attaching or resuming subscriber: snapshot, queue task with its random select, peek, five catch-up retries, cancel, drain, forward, with receiver/queue capacities 1-3 so that Lagged and overflow occur, for every resume point; it checks that delivered ids are contiguous or the stream ends with an error. The duplicate the as-found protocol admits is replayed on the real agent with two pause points (mechanism D); subscribers attaching through HTTP while a writer commits are read with the real client library and each stream is judged (contiguity, MissedChange reports).",
    note="ids <= 5 and capacities <= 3 in the model; the real 10240-slot buffers are not overflowed by the real runs; the forced schedule succeeds with probability < 1 per attempt (select! coin)")
+CHECKS["C11"] = dict(
+   level="model_checking", engine="matcher", design="§6/C11",
+   technique="TLA+ spec Matcher.tla (query definition vs. the per-table re-evaluation algorithm) checked exhaustively by TLC; real subscriptions compared with SQLite's own evaluation of the query after every burst of local/remote changes",
+   text="TLC checks view = Q(db) after every processed batch for all histories of <= 3-4 single-row writes on two tables and any batching, for a filtered projection and an inner join (and exhibits the recorded LEFT JOIN divergence). On a real agent, subscriptions for a filter, a computed column and an inner join receive seeded histories of local transactions and remote changesets merged in shuffled order; after every burst the fold of initial rows and insert/update/delete events must equal the query run on the node database, ids must increase by one, and no event may be a no-op.",
+   note="small abstract tables in the model; LEFT JOIN excluded from judgement (known finding S5, probed each run); 1.5 s drain time per burst; keys >= 1")
+CHECKS["C14"] = dict(
+   level="model_checking", engine="updates", design="§6/C14",
+   technique="TLA+ spec Updates.tla checked exhaustively by TLC (Complete, Fate, Monotone) + real update feeds of a real agent judged by the same formulas under local and shuffled remote histories",
+   text="TLC explores all histories of inserts/updates/deletes/re-inserts on 2-3 keys with candidates reaching batch_candidates in any order and flushes at any time, and checks that every changed key is notified, the last notification says deleted exactly when the row is gone, and delivered causal lengths never decrease. The real /v1/updates feed is read with the client library while local transactions commit and a second node's transactions are merged out of order and duplicated; Complete and Fate are evaluated on the collected notifications against the final table.",
+   note="cache eviction (2000->1000) is outside the claim (TLC shows a stale notification with a tiny cache + reordering); Monotone is only checkable on the model")
 CHECKS.update({
  "C01": repl("§6/C01", "TLC checks NoInvention / NoLoss (a node that claims a version has every change of it that has not lost globally) / Converged / MergeOfAll on every behaviour of small instances (any delivery order, duplication, re-cut, loss, batching, sync serving, restart); seeded walks over 2-3 real agents are accepted only if every step is the specification's step, and the final drain must reach quiescence with byte-identical tables equal to the merge of all acknowledged transactions."),
  "C03": repl("§6/C03", "TLC checks Atomic (nothing of a remote version visible before the step that applies it), CoveredIsPending and BufferedHaveRecord on the model; real walks with re-cut, overlapping, duplicated chunks from origin and relays in batches are validated step by step, the harness observes the apply trigger exactly when the specification says the version is covered, and the drain must resolve every partial version."),
@@ -97,6 +107,8 @@ def main():
             {"name": "ingest", "path": "specs/Ingest.tla + specs/TraceIngest.tla + harness/src/ingest.rs + lib/prop_c10.py", "serves_properties": ["C10"], "kind_free_text": "TLA+ model checked by TLC; traces of the real loop validated"},
             {"name": "writepool", "path": "specs/WritePool.tla + specs/Locks.tla + harness/src/poolstress.rs + lib/prop_c20.py", "serves_properties": ["C20"], "kind_free_text": "TLA+ models checked by TLC; program extraction from recorded events"},
             {"name": "subcatchup", "path": "specs/SubCatchUp.tla + harness/src/subrace.rs + lib/prop_c12.py", "serves_properties": ["C12"], "kind_free_text": "TLA+ model checked by TLC; schedule forcing with pause points; stream oracle"},
+            {"name": "matcher", "path": "specs/Matcher.tla + harness/src/matchwalk.rs + lib/prop_c11.py", "serves_properties": ["C11"], "kind_free_text": "TLA+ model checked by TLC; differential oracle against SQLite on real subscriptions"},
+            {"name": "updates", "path": "specs/Updates.tla + harness/src/updwalk.rs + lib/prop_c14.py", "serves_properties": ["C14"], "kind_free_text": "TLA+ model checked by TLC; real feed judged"},
             {"name": "replication", "path": "specs/Replication.tla + specs/TraceReplication.tla + specs/MCReplication*.tla + harness/src/sim.rs + lib/repl.py + lib/repl_check.py", "serves_properties": ["C01", "C03", "C05", "C06", "C07"], "kind_free_text": "TLA+ model checked by TLC; recorded walks of real agents validated against the spec; counter-examples replayed on real agents"},
             {"name": "bookkeeping", "path": "specs/Bookkeeping.tla + specs/MCBookkeeping.tla + harness/src/bk.rs + lib/prop_c02.py", "serves_properties": ["C02"], "kind_free_text": "TLA+ model checked by TLC; all edges replayed on the real crates"},
         ],
